@@ -333,6 +333,48 @@ def r6_diff(ctx, retsets):
               "%s:%d" % (fn.relfile, fn.line), "the old table's callback is NULL while its entries are removed and is restored afterwards", key="C10.R6:diff:silence")
 
 
+# walks that have to see every entry of the list / bucket: the cursor moves one entry at a time and the walk ends only when the
+# cursor runs off the end (or the operation fails)
+COMPLETE_WALKS = ["spki_table_get_all", "spki_table_search_by_ski", "spki_table_src_remove", "spki_table_copy_except_socket", "spki_table_notify_diff"]
+
+
+def r_walks(ctx, only=None):
+    pdb = ctx.pdb
+    n = 0
+    if only:
+        ctx.rule("C10.R3", "list walks that must see every entry move one entry at a time and end only at the end of the list or on failure")
+    for fname in COMPLETE_WALKS:
+        if only and fname not in only:
+            continue
+        fn = pdb.fn(fname, U)
+        ctx.touch(fn)
+        loops = es.walk_loops(fn, "tommy_node_struct.next")
+        if not loops:
+            raise AnalysisBroken("%s: no list walk found" % fname)
+        for k, L in enumerate(loops):
+            n += 1
+            cur = L["cur"]
+            one = ("load", ("fld", cur, "tommy_node_struct.next"))
+            badstep = [x for x in L["steps"] if x != one]
+            badexit = []
+            for br, truth, tgt in L["exits"]:
+                if es.edge_facts(fn, br, truth).eq(cur, ("c", 0)) or es.edge_facts(fn, br, truth).zero(cur):
+                    continue
+                if es.fails_only(fn, tgt):
+                    continue
+                badexit.append(br)
+            det = []
+            if badstep:
+                det.append("the cursor continues with %s (not the entry after the current one)" % vf.show(badstep[0]))
+            if badexit:
+                det.append("the walk is left at line %d although entries remain and nothing failed" % badexit[0].line)
+            rid = "C10.R2" if fname in ("spki_table_get_all", "spki_table_search_by_ski") else "C10.R3"
+            ctx.check(not badstep and not badexit, rid,
+                      "%s:walk#%d-sees-every-entry" % (fname, k + 1), (badexit[0].loc() if badexit else "%s:%d" % (fn.relfile, fn.line)),
+                      "; ".join(det) if det else "one step per iteration, left only at the end of the list or on failure", key="%s:%s:walk%d" % (rid, fname, k + 1))
+    ctx.floor("C10.R3", n, 1 if only else 6)
+
+
 def r6_writers(ctx):
     """the callback is configuration of the table object: set at creation, cleared at silent destruction, silenced and restored around
     the reload diff - nothing else may write it (a swap or a copy that touched it would redirect or suppress notifications)"""
@@ -347,6 +389,7 @@ def check(ctx):
     r1(ctx)
     r2(ctx, retsets)
     r3_r5_r6(ctx, retsets)
+    r_walks(ctx)
     r6_writers(ctx)
     r4(ctx)
     r6_diff(ctx, retsets)
